@@ -1,6 +1,7 @@
 import Driver.Common
 import ThriftVerif.Lib.Dump
 import ThriftVerif.Generated.C17
+import ThriftVerif.Lib.DumpTree
 
 /-! model driver for C17: one op per line (see harness/cmd/c17). -/
 namespace Driver.C17
@@ -158,6 +159,20 @@ partial def cvStr : CV → String
 
 def pPfPairs : P (List (Bytes × Nat)) := pMany (do let t ← pBytes; let b ← pNat; pure (t, b))
 
+def insertNat (x : Nat) : List Nat → List Nat
+  | [] => [x]
+  | y :: r => if x ≤ y then x :: y :: r else y :: insertNat x r
+
+def pAdj : P (List (List Nat)) := do
+  let n ← pNat
+  let rec go (k : Nat) (acc : List (List Nat)) : P (List (List Nat)) :=
+    match k with
+    | 0 => pure acc.reverse
+    | k + 1 => do
+      let cs ← pMany pNat
+      go k (cs :: acc)
+  go n []
+
 def handleLine (line : String) : String :=
   match VL.toks line with
   | "F" :: _ :: rest =>
@@ -183,6 +198,12 @@ def handleLine (line : String) : String :=
       | .exp => "exp"
       | .nolex => "other"
     | _, _ => "bad-op"
+  | "T" :: rest =>
+    match pAdj.run (rest, []) with
+    | some (adj, ([], _)) =>
+      let written := DumpTree.rd (DumpTree.unfold adj (adj.length + 1) 0) []
+      ("ok " ++ " ".intercalate ((written.foldr insertNat []).map toString)).trimAscii.toString
+    | _ => "bad-op"
   | "A" :: rest =>
     match pPairs.run (rest, []) with
     | some (ps, ([], _)) => "ok " ++ annsStr (annRegroup ps)
